@@ -253,7 +253,15 @@ def rule_other(ctx):
     return
   other = P("param", f.params()[1])
   t0 = sym.mk("idx", sym.mk("call", lit("ntheory_util:ExtendedProductTree"), sym.mk("set", P("param", f.params()[0]))), Poly.const(1))
-  seeds = [e for e in w.events if e.kind == "assign" and e.data["name"] == "remainders" and not e.state.tags]
+  # the seed of the remainder tree by role: the one-element list the level loop starts from (whatever the local is called)
+  RN = "remainders"
+  for i_ in w.loop_info.values():
+    if isinstance(i_["node"], ast.While):
+      for v_ in i_.get("visits", [])[:1]:
+        for nm_, pv_ in (v_.get("pre_env") or {}).items():
+          if isinstance(pv_, Seq) and len(pv_.items) == 1 and pv_.kind == "list":
+            RN = nm_
+  seeds = [e for e in w.events if e.kind == "assign" and e.data["name"] == RN and not e.state.tags]
   ok = bool(seeds)
   why = []
   for e in seeds:
@@ -293,12 +301,20 @@ def rule_tree(ctx):
       lenv = sym.mk("len", as_poly(v["head"].env["values"])) if "values" in v["head"].env else None
     okc, detc = regions.equivalent_dnf([[(c, True)]], lambda v: v[lenv] > 1, main=lenv) if lenv is not None else (None, "no `values` variable")
     ctx.record(R, f.where, "loop while len(values) > 1", okc, detc)
+    # the T list and the tree by role (their values before the level loop), whatever the locals are called
+    TN, PN = "t", "prod_tree"
+    for v in info["visits"][:1]:
+      for nm_, pv_ in (v.get("pre_env") or {}).items():
+        if isinstance(pv_, Poly) and pv_ == sym.mk("listrep", P("seq", Poly.const(1)), sym.mk("len", values0)):
+          TN = nm_
+        if isinstance(pv_, Seq) and len(pv_.items) == 1 and isinstance(pv_.items[0], Poly) and pv_.items[0] == values0:
+          PN = nm_
     if ext:
       # T1 base
-      base = [e for e in w.events if e.kind == "assign" and e.data["name"] == "t" and not e.state.tags]
+      base = [e for e in w.events if e.kind == "assign" and e.data["name"] == TN and not e.state.tags]
       okb = bool(base) and all(as_poly(e.data["value"]) == sym.mk("listrep", P("seq", Poly.const(1)), sym.mk("len", values0)) for e in base)
       ctx.record(R, f.where, "base: t = [1] * len(values)", okb, "leaf level: T = P/v = 1 for every leaf" if okb else "leaf-level T is not all ones of the batch length")
-      pt = [e for e in w.events if e.kind == "assign" and e.data["name"] == "prod_tree" and not e.state.tags]
+      pt = [e for e in w.events if e.kind == "assign" and e.data["name"] == PN and not e.state.tags]
       okp = bool(pt) and all(isinstance(e.data["value"], Seq) and len(e.data["value"].items) == 1 and as_poly(e.data["value"].items[0]) == values0 for e in pt)
       ctx.record(R, f.where, "base: prod_tree = [values]", okp, "tree starts with the leaf level" if okp else "tree does not start with the leaf level")
     probs_t, probs_v, probs_c, probs_a = [], [], [], []
@@ -330,10 +346,10 @@ def rule_tree(ctx):
         if good is False:
           probs_v.append("P_parent != P_left * P_right")
       if ext:
-        th = as_poly(head.env.get("t"))
+        th = as_poly(head.env.get(TN))
         # value semantics: at the end of a level step the T list is M = [T_L*P_R + T_R*P_L over the paired children], followed on odd levels by the
         # old last element (however it was built: comprehension or append loop, in place or through a temporary)
-        t_end = s.env.get("t")
+        t_end = s.env.get(TN)
         carried = None
         core = as_poly(t_end).as_atom() if isinstance(t_end, Poly) else None
         n_app = 0
@@ -391,7 +407,7 @@ def rule_tree(ctx):
           else:
             probs_c.append("no parity test: the unpaired node of an odd level is dropped")
         # T5 prod_tree.append(values_new)
-        pa = [e for e in evs if e.kind == "mutate" and isinstance(e.data["target"], ast.Name) and e.data["target"].id == "prod_tree"]
+        pa = [e for e in evs if e.kind == "mutate" and isinstance(e.data["target"], ast.Name) and e.data["target"].id == PN]
         if len(pa) != 1 or pa[0].data["method"] != "append" or not vas or as_poly(pa[0].data["args"][0]) != as_poly(vas[0].data["value"]):
           probs_a.append("the new level is not appended exactly once to prod_tree")
       if kind not in ("fall", "continue"):
